@@ -56,7 +56,9 @@ static bool eq_key(const void *a, const void *b) {
     return x->id == y->id;
 }
 static void destroy_key(void *p) { ((Key *)p)->destroyed++; }
-static void destroy_val(void *p) { ((Val *)p)->destroyed++; }
+static void destroy_val(void *p) {
+    if (p) ((Val *)p)->destroyed++; // entries may hold a NULL value (a cache used as a bounded set)
+}
 
 enum { FIFO, LIFO, LRU };
 enum { PUT, FIND, REMOVE, CLEAR, COUNT, USE_LRU, GET_MRU, NKINDS };
@@ -69,7 +71,7 @@ static Case gen_case() {
     c.cfg = {pick(0, 2), cap, pick(0, 1), pick(0, 1), pick(0, 3), pick(0, 5)};
     c.ops = op_list(60, [] {
         switch (weighted({46, 18, 10, 2, 2, 7, 4})) {
-        case 0: return mkop(PUT, {weighted({2, 3, 6, 2}), pick(0, 15), pick(0, 2)}); // id selector, x, key mode
+        case 0: return mkop(PUT, {weighted({2, 3, 6, 2}), pick(0, 15), pick(0, 2), pick(0, 4)}); // id selector, x, key mode
         case 1: return mkop(FIND, {weighted({3, 4, 1, 3}), pick(0, 15)});
         case 2: return mkop(REMOVE, {weighted({3, 3, 1, 3}), pick(0, 15), pick(0, 2)});
         case 3: return mkop(CLEAR);
@@ -136,7 +138,7 @@ static void run(const Case &c, Ctx &ctx) {
     };
     auto displaced = [&](const Entry &e, bool key_too) {
         if (kd && key_too) e.key->expect++;
-        if (vd) e.val->expect++;
+        if (vd && e.val) e.val->expect++;
     };
     auto note_touch = [&](int at, const char *tagname) {
         if (at >= 0 && at == victim_index() && model.size() == cap) {
@@ -155,12 +157,12 @@ static void run(const Case &c, Ctx &ctx) {
              nd = aws_linked_list_next(nd), i++) {
             PBT_CHECK(i < model.size(), "after %s: cache list is longer than the reference (%zu)", after, model.size());
             const struct aws_linked_hash_table_node *ln = AWS_CONTAINER_OF(nd, struct aws_linked_hash_table_node, node);
-            PBT_CHECK(ln->key != nullptr && ln->value != nullptr, "after %s: position %zu has a null key/value", after, i);
+            PBT_CHECK(ln->key != nullptr, "after %s: position %zu has a null key", after, i);
             PBT_CHECK(((const Key *)ln->key)->id == model[i].id,
                       "after %s: %s cache (max %zu) holds id %u at position %zu, reference says id %u — wrong entry evicted / wrong order",
                       after, KIND_NAME[kind], cap, ((const Key *)ln->key)->id, i, model[i].id);
             PBT_CHECK(ln->value == model[i].val, "after %s: id %u does not hold the value of its last put (#%u)", after, model[i].id,
-                      model[i].val->serial);
+                      model[i].val ? model[i].val->serial : 0);
             PBT_CHECK(ln->key == model[i].key, "after %s: id %u does not hold the key pointer of its last put", after, model[i].id);
         }
         PBT_CHECK(i == model.size(), "after %s: cache list has %zu entries, reference has %zu", after, i, model.size());
@@ -203,9 +205,15 @@ static void run(const Case &c, Ctx &ctx) {
                 k = keys.back().get();
                 k->id = id;
             }
-            vals.emplace_back(new Val());
-            Val *v = vals.back().get();
-            v->serial = ++serial;
+            // every fifth put stores a NULL value (negative-cache entry / cache used as a bounded set): present, value NULL
+            Val *v = nullptr;
+            if (op.arg(3) % 5 != 4) {
+                vals.emplace_back(new Val());
+                v = vals.back().get();
+                v->serial = ++serial;
+            } else {
+                ctx.tag("null_value_entry");
+            }
             if (at >= 0) note_touch(at, "victim_overwritten");
             int rc = aws_cache_put(cache, k, v);
             PBT_CHECK(rc == AWS_OP_SUCCESS, "put failed: %s", aws_error_name(aws_last_error()));
@@ -231,6 +239,8 @@ static void run(const Case &c, Ctx &ctx) {
                 PBT_CHECK(aws_linked_hash_table_find(&cache->table, &probe, &got) == AWS_OP_SUCCESS);
                 PBT_CHECK(got == v, "%s cache (max %zu) does not retain the entry that was just put (id %u): %s", KIND_NAME[kind], cap, id,
                           got ? "old value" : "absent");
+                PBT_CHECK(aws_cache_get_element_count(cache) == model.size(), "%s cache (max %zu): %zu entries after put of id %u, reference %zu",
+                          KIND_NAME[kind], cap, aws_cache_get_element_count(cache), id, model.size());
             }
             invariants("put");
             break;
